@@ -33,8 +33,9 @@ fn hpi<'a>(w: SdesItemBuilder<'a>) -> SdesItemBuilder<'a> {
 
 fn bytes_of(w: &dyn RtcpPacketWriter) -> Result<Vec<u8>, WErr> {
     let n = w.calculate_size().map_err(build::werr)?;
-    let mut buf = vec![0xA5u8; n];
+    let mut buf = crate::engine::place::OutBuf::new(n, |_| 0xA5);
     let m = DynW(w).write_into(&mut buf).map_err(build::werr)?;
+    let mut buf = buf.into_vec();
     buf.truncate(m);
     Ok(buf)
 }
